@@ -57,7 +57,7 @@ def defaults_part(ck, workdir, selftest=False):
     decls = ["$d%d: %s%s = %s" % (i, c["base"], "!" if c["nonnull"] else "", q(c["text"])) for i, c in enumerate(cases)]
     query = "query MyOp(%s) {\n  x\n}\n" % ", ".join(decls)
     rs, _ = vlib.gqlv("gen", [{"id": "d", "schema_path": sp, "query": query, "want_tokens": True,
-                               "options": {"mode": "cli", "module_visibility": "pub", "variables_derives": "Debug"}}])
+                               "options": {"mode": "cli", "module_visibility": "pub", "variables_derives": "Deserialize, Debug"}}])
     ck.count()
     if rs[0]["status"] != "ok":
         ck.violation("defaults-gen", {"query": query, "observed": rs[0]}, "C04(defaults): generation failed: %s" % rs[0].get("msg"), case_key="defaults-gen")
@@ -65,16 +65,37 @@ def defaults_part(ck, workdir, selftest=False):
     helper = "\npub fn verif_defaults() -> serde_json::Value { serde_json::json!({%s}) }\n" % ", ".join(
         '"d%d": my_op::Variables::default_d%d()' % (i, i) for i in range(len(cases)))
     cons = Consumers("c04d", nbins=1)
-    cons.add_case("defaults_case", PRELUDE + rs[0]["tokens"] + helper, "MyOp", kinds=("defaults",))
+    cons.add_case("defaults_case", PRELUDE + rs[0]["tokens"] + helper, "MyOp", kinds=("defaults", "vars"))
     errs = cons.build()
     if errs:
         ck.violation("defaults-compile", {"query": query, "errors": list(errs.values())[0][:4]},
                      "C04(defaults): default value functions do not compile: %s" % list(errs.values())[0][0][:200], case_key="defaults-compile")
         return
     o = cons.run([{"id": "d", "case": "defaults_case", "kind": "defaults", "input": None}]).get("d", {})
+    wants = [json.loads(json.dumps(payload.decode(c["expect"])).replace("$q", '\\"')) for c in cases]
+    # a default value does not make a non-null variable nullable: `$d: T! = v` still cannot hold null
+    vj = [{"id": "all", "case": "defaults_case", "kind": "vars", "input": {"d%d" % k: w for k, w in enumerate(wants)}}]
+    for i, c in enumerate(cases):
+        if c["nonnull"]:
+            vj.append({"id": "null%d" % i, "case": "defaults_case", "kind": "vars",
+                       "input": {"d%d" % k: (None if k == i else w) for k, w in enumerate(wants)}})
+    vo = cons.run(vj)
+    ck.count()
+    if "ok" not in vo.get("all", {}) or vo["all"]["ok"].get("variables") != vj[0]["input"]:
+        ck.violation("defaults-roundtrip", {"assignment": vj[0]["input"], "observed": vo.get("all")},
+                     "C04(defaults): the default values themselves are not expressible as Variables / do not round-trip: %s" % json.dumps(vo.get("all"))[:300],
+                     case_key="defaults-roundtrip")
+    for j in vj[1:]:
+        ck.count()
+        o2 = vo.get(j["id"], {})
+        i = int(j["id"][4:])
+        if "ok" in o2 and (o2["ok"].get("variables") or {}).get("d%d" % i, "absent") is None:
+            ck.violation("default-null-%d" % i, {"declaration": decls[i], "assignment": j["input"], "observed": o2},
+                         "C04(defaults): `%s` is non-null, yet Variables can hold null there and sends `\"d%d\": null`" % (decls[i], i),
+                         case_key="default|badnull")
     for i, c in enumerate(cases):
         ck.count()
-        want = json.loads(json.dumps(payload.decode(c["expect"])).replace("$q", '\\"'))
+        want = wants[i]
         if selftest and i == 0:
             want = "selftest"
         got = o.get("d%d" % i, "<missing>") if isinstance(o, dict) else "<no result: %s>" % o
